@@ -34,9 +34,9 @@ type Tok struct {
 
 func (t Tok) String() string { return fmt.Sprintf("%d:%d %q", t.Line, t.Col, t.Text) }
 
-func isAlpha(b byte) bool  { return 'a' <= b && b <= 'z' || 'A' <= b && b <= 'Z' || b == '_' }
-func isDigit(b byte) bool  { return '0' <= b && b <= '9' }
-func isAlnum(b byte) bool  { return isAlpha(b) || isDigit(b) }
+func isAlpha(b byte) bool { return 'a' <= b && b <= 'z' || 'A' <= b && b <= 'Z' || b == '_' }
+func isDigit(b byte) bool { return '0' <= b && b <= '9' }
+func isAlnum(b byte) bool { return isAlpha(b) || isDigit(b) }
 
 var twoChar = []string{"|>", "||", "&&", "<>", "<=", ">=", "->"}
 
